@@ -291,6 +291,28 @@ PairsNext == /\ op = "init"
              /\ UNCHANGED <<x, y>>
 PairsSpec == PairsInit /\ [][PairsNext]_nvars
 
+\* Proj: a larger input set (both children of the top connective may be compound: `(A and X) or (A and Y)`,
+\* where union() prefers the conjunctive form `A and (X or Y)`), each input projected on every variable
+Raw3    == Raw2 \cup { Mk(c, <<a, b>>) : c \in {"and", "or"}, a \in Raw1 \ Leafs, b \in Raw1 \ Leafs }
+Inputs3 == { Build(t) : t \in Raw3 }
+ProjInit == x \in Inputs3 /\ y = x /\ op = "init" /\ res = AnyM
+ProjNext == /\ op = "init"
+            /\ \/ \E v \in Vars : op' = "exclude_" \o v /\ res' = Exclude(x, v)
+               \/ \E v \in Vars : op' = "only_" \o v /\ res' = Only(x, {v})
+            /\ UNCHANGED <<x, y>>
+ProjSpec == ProjInit /\ [][ProjNext]_nvars
+
+\* Closure: two registers that start from parse results and are closed under & and | (results become
+\* operands), explored breadth-first to a bounded depth (CONSTRAINT ClosureBound)
+ClosureInit == x \in Inputs /\ y \in Inputs /\ op = "load" /\ res = AnyM
+ClosureNext == \/ op' = "and"  /\ x' = And2(x, y) /\ res' = x' /\ UNCHANGED y
+               \/ op' = "or"   /\ x' = Or2(x, y)  /\ res' = x' /\ UNCHANGED y
+               \/ op' = "swap" /\ x' = y /\ y' = x /\ UNCHANGED res
+ClosureSpec == ClosureInit /\ [][ClosureNext]_nvars
+ClosureBound == TLCGet("level") <= 3
+ClosureNormal == (NormalForm(x) \/ HasSingletonCompound(x)) /\ (NormalForm(y) \/ HasSingletonCompound(y))
+ClosureSound == [][ (op' = "and" => Den(x') = Den(x) \cap Den(y)) /\ (op' = "or" => Den(x') = Den(x) \cup Den(y)) ]_nvars
+
 \* inputs obtained by parsing are in normal form (C15) and mean what their text means
 InputsNormal == (NormalForm(x) \/ HasSingletonCompound(x)) /\ (NormalForm(y) \/ HasSingletonCompound(y))
 \* C02: & and | are sound under evaluation
